@@ -906,11 +906,19 @@ pub fn all() -> Vec<Box<dyn Check>> {
         min_nt: (200, 2000),
         required: vec!["resumes_with_release_phase", "pubrel_replays_verified", "replays_with_2plus_pubrel", "injection_points"],
     }),
-    gen_check!("C04", "exploration",
-        "the reference broker originates bursts of PUBLISH packets (all QoS, identifiers incl. 1/255/256/65535, random property sets, payloads up to the receive buffer, retain/DUP), retransmissions of unreleased QoS 2 identifiers, PUBRELs for known and unknown ids, interleaved with client traffic, small transmit arenas kept full by withheld acks, reconnects between PUBLISH and PUBREL; a 40-line reference receiver predicts deliveries and the exact acknowledgement sequence. Non-trivial iff a duplicate was suppressed, an ack was owed with a full arena, or >=3 QoS 2 ids were pending. The hostile workload (broker exceeding limits/reusing ids) is judged only for: no panic, acks carry ids that were received.",
-        COMMON_ASSUME.to_vec(),
-        vec![("inbound-heavy", 5000, 2_000_000, inbound_heavy as ProfileFn), ("inbound-hostile", 1000, 400_000, inbound_hostile), ("general", 1000, 400_000, general)],
-        m::c04::check, 80, 0, (200, 2000), vec!["duplicates_suppressed", "acks_owed_with_full_arena", "pubrel_unknown", "deliveries_with_properties"]),
+    Box::new(MixCheck {
+        id: "C04",
+        level: "exploration",
+        rule: concat!("the reference broker originates bursts of PUBLISH packets (all QoS, identifiers incl. 1/255/256/65535, random property sets, payloads up to the receive buffer, retain/DUP), retransmissions of unreleased QoS 2 identifiers, PUBRELs for known and unknown ids, interleaved with client traffic, small transmit arenas kept full by withheld acks, reconnects between PUBLISH and PUBREL; a 40-line reference receiver predicts deliveries and the exact acknowledgement sequence. Non-trivial iff a duplicate was suppressed, an ack was owed with a full arena, or >=3 QoS 2 ids were pending. The hostile workload (broker exceeding limits/reusing ids) is judged only for: no panic, acks carry ids that were received.", " Scripted workload `full-table-redelivery`: seven or eight inbound QoS 2 exchanges open (PUBRELs withheld), the connection lost before the PUBREC of the last one was written, the broker redelivers it on the resumed (or fresh) connection."),
+        assumptions: COMMON_ASSUME.to_vec(),
+        workloads: vec![("inbound-heavy", 5000, 2_000_000, Source::Gen(inbound_heavy)), ("inbound-hostile", 1000, 400_000, Source::Gen(inbound_hostile)), ("general", 1000, 400_000, Source::Gen(general)), ("full-table-redelivery", 300, 30_000, Source::Script(crate::scripts::c04_script))],
+        monitor: m::c04::check,
+        max_steps: 80,
+        epilogue_polls: 0,
+        min_nt: (200, 2000),
+        required: vec!["duplicates_suppressed", "acks_owed_with_full_arena", "pubrel_unknown", "deliveries_with_properties", "redeliveries_with_a_full_table"],
+        exhaustive: false,
+    }),
     Box::new(SweepCheck {
         id: "C05",
         level: "exploration",
